@@ -44,6 +44,8 @@ def expand(names, tables):
         t = tab[n["depth"]]
         kidx = {k: i for i, k in enumerate(t["kinds"])}
         for o in t["ops"]:
+            if o["op"] == "relroot" and n["abs"]:
+                continue    # a scan root with a leading separator is an absolute path, not a name below the working directory
             i = kidx[o["kind"]]
             vectors.append({"comp": o["comp"], "op": o["op"], "depth": n["depth"], "pad": t["pad"], "abs": n["abs"],
                             "segs": n["segs"], "roots": t["lay"][i]["roots"], "base": t["lay"][i]["base"],
